@@ -30,8 +30,8 @@ for name in sorted(os.listdir(ROOT)):
 
 with open(os.path.join(ROOT, "README.md"), "w") as f:
     f.write("# Seeded changes\n\n"
-            "Changes to jawher/mow.cli seeded in six rounds (A/B: two per property; C/D: a third round on thirteen\n"
-            "properties; E/F, G/H, J/K: three adversarial rounds of twelve, ten and ten whose authors were asked for changes\n"
+            "Changes to jawher/mow.cli seeded in seven rounds (A/B: two per property; C/D: a third round on thirteen\n"
+            "properties; E/F, G/H, J/K, L/M: four adversarial rounds of twelve, ten, ten and ten whose authors were asked for changes\n"
             "that a generator of ordinary inputs would not meet, the last two aimed at one named property each), each written by a sub-agent that was given only the\n"
             "property's text and a scratch worktree (nothing from /verif). Each directory holds `patch.diff` (apply with\n"
             "`git -C <copy of /repo> apply`), `demo_test.go` (a test that passes on the unchanged tree and fails with the\n"
